@@ -9,15 +9,20 @@ class Spin(BaseException):
 
 
 class cpu_budget:
-    """raise Spin in the running code once it has used `secs` of CPU time (repeats, so a swallowed exception fires again)"""
+    """raise Spin in the running code once it has used `secs` of CPU time — or 8x that in wall time, for code that
+    blocks instead of spinning (e.g. a loop that fills the pinger pipe) — repeating, so a swallowed exception fires again"""
     def __init__(self, secs): self.secs = secs
     def _h(self, sig, frm): raise Spin()
     def __enter__(self):
         self.old = signal.signal(signal.SIGVTALRM, self._h)
+        self.old2 = signal.signal(signal.SIGALRM, self._h)
         signal.setitimer(signal.ITIMER_VIRTUAL, self.secs, 0.02)
+        signal.setitimer(signal.ITIMER_REAL, self.secs * 8, 0.05)
     def __exit__(self, *a):
         signal.setitimer(signal.ITIMER_VIRTUAL, 0, 0)
+        signal.setitimer(signal.ITIMER_REAL, 0, 0)
         signal.signal(signal.SIGVTALRM, self.old)
+        signal.signal(signal.SIGALRM, self.old2)
         return False
 
 
@@ -81,7 +86,7 @@ class C10(Check):
                   "connection is closed, as of_01.py:1145-1186 does); the switch side drives the real RecocoIOLoop generator. What the ~50 decoders do with garbage is NOT modelled: it is observed, "
                   "fed to the model as a table, and checked by the oracle (window independence, exceptions contained).")
     trusted_base = ["model Model/Framing.lean (ctlLoop/swLoop) hand-written; tied by this correspondence run", "emulation of OpenFlow_01_Task's per-connection exception handling in the harness"]
-    assumptions = ["a spin is detected by a 4 s CPU-time budget per read call", "recv returns at most the bytes asked for"]
+    assumptions = ["non-termination is detected by a budget of 4 s CPU time (or 32 s wall time when blocked) per read call", "recv returns at most the bytes asked for"]
     rule = ("case = (side, valid prefix messages, one malformed region, valid suffix messages, two sibling connections with valid traffic, cut positions); malformed region = every length value 0..len+8 of "
             "each of the 22 message types (corpus), type/version bytes, embedded lengths, truncations, byte flips, random bytes; non-trivial = the malformed region differs from a valid message")
 
